@@ -30,8 +30,9 @@ def trend_callable(spec):
     raise KeyError(kind)
 
 
-def apply_op(w, op):
-    """Apply one concrete operation to a Weaver through its public API."""
+def apply_op(w, op, keep=None):
+    """Apply one concrete operation to a Weaver through its public API.  Array arguments built for the call are
+    appended to `keep` as (label, object, pristine copy): they are the caller's data as well."""
     k = op["op"]
     if k == "append":
         return w.append_one_sample(make_periodic=op["periodic"])
@@ -56,13 +57,18 @@ def apply_op(w, op):
         if op.get("search") is not None:
             kw["fixed_points_finding_strategy"] = op["search"]
         if op.get("fixed_x") is not None:
-            kw["fixed_points_in_x"] = op["fixed_x"]
+            kw["fixed_points_in_x"] = np.array(op["fixed_x"], dtype=float)
+            if keep is not None:
+                keep.append(("fixed_points_in_x of integral_match", kw["fixed_points_in_x"],
+                             kw["fixed_points_in_x"].copy()))
         if op.get("fixed_idx") is not None:
             kw["fixed_points_indices_in_x"] = op["fixed_idx"]
         return w.integral_match(target_function_integral_method=op["rule"], **kw)
     if k == "interpolate":
         if op.get("new_x") is not None:
             nx = list(op["new_x"]) if op.get("as_list") else np.array(op["new_x"], dtype=float)
+            if keep is not None:
+                keep.append(("new_x of interpolate", nx, copy.deepcopy(nx)))
             return w.interpolate(new_x=nx, method=op["method"])
         return w.interpolate(n=op["n"], method=op["method"])
     if k == "smooth":
@@ -74,6 +80,8 @@ def apply_op(w, op):
         snr = op["snr"]
         if isinstance(snr, list):
             snr = np.array(snr, dtype=float)
+            if keep is not None:
+                keep.append(("snr of noise", snr, snr.copy()))
         return w.noise(snr, snr_in_db=op.get("db", True))
     if k == "restore":
         return w.restore_original()
